@@ -1085,8 +1085,9 @@ impl MutableArchive {
         let table_size = hash_table.size() as u32;
         let mut index = table_offset & (table_size - 1);
 
-        // Linear probing to find empty or deleted slot
-        loop {
+        // Linear probing to find empty or deleted slot; a full table has neither, so stop
+        // after one pass instead of probing forever
+        for _ in 0..table_size {
             let entry = hash_table.get_mut(index as usize).ok_or_else(|| {
                 Error::InvalidFormat("Hash table index out of bounds".to_string())
             })?;
@@ -1100,14 +1101,14 @@ impl MutableArchive {
                     platform: 0, // Always 0 - platform codes are vestigial
                     block_index,
                 };
-                break;
+                return Ok(());
             }
 
             // Move to next slot
             index = (index + 1) & (table_size - 1);
         }
 
-        Ok(())
+        Err(Error::hash_table("Hash table is full"))
     }
 
     /// Update the (listfile) with a new filename
